@@ -209,7 +209,7 @@ impl Scen1 {
                             BoundaryCondition::Individual(arr.into_dimensionality::<D>().unwrap())
                         }
                     };
-                    let strat = CubicSpline::new().extrapolate(self.ext).boundary(boundary);
+                    let strat = configure_spline(self.ext, boundary);
                     match axo {
                         None => go!(Interp1DBuilder::new(data).strategy(strat)),
                         Some(ax) => {
@@ -450,5 +450,22 @@ impl Scen2 {
             ("trailing_shape", J::A(self.trail.iter().map(|&t| J::I(t as i64)).collect())),
             ("queries", J::A(self.queries.iter().map(|&(a, b)| J::A(vec![s(format!("{:?}", a)), s(format!("{:?}", b))])).collect())),
         ])
+    }
+}
+
+/// Configure a CubicSpline through one of four equivalent setter sequences (chosen round-robin):
+/// the configuration must not depend on the order of the builder calls.
+pub fn configure_spline<T, D>(ext: bool, boundary: BoundaryCondition<T, D>) -> CubicSpline<T, D>
+where
+    T: ndarray_interp::interp1d::cubic_spline::SplineNum,
+    D: ndarray::Dimension + ndarray::RemoveAxis,
+{
+    use std::sync::atomic::{AtomicUsize, Ordering};
+    static ORDER: AtomicUsize = AtomicUsize::new(0);
+    match ORDER.fetch_add(1, Ordering::Relaxed) % 4 {
+        0 => CubicSpline::new().extrapolate(ext).boundary(boundary),
+        1 => CubicSpline::new().boundary(boundary).extrapolate(ext),
+        2 => CubicSpline::new().extrapolate(!ext).boundary(boundary).extrapolate(ext),
+        _ => CubicSpline::new().boundary(BoundaryCondition::Natural).extrapolate(ext).boundary(boundary),
     }
 }
